@@ -2,6 +2,7 @@
    Facts about the index arithmetic the code performs (mirrored from multiarr.hpp, qgen.cpp, radial_gen.cpp,
    ecpint.cpp) and about the regenerated tables (Gen/QClasses, Gen/RadialCases, Gen/Constants). -/
 import Ecpint.Gen.QClasses
+import Ecpint.Props.C11b
 import Ecpint.Gen.RadialCases
 import Ecpint.Gen.Constants
 import Ecpint.Model.Contraction
